@@ -2,7 +2,8 @@
 // The *unmodified header text* is compiled with `uint64_t` macro-replaced by a W-bit modular integer
 // class whose every operation that would wrap (or be narrowed) increments a trap counter.  All
 // (a, b, n) with a, b < n < 2^W are enumerated against plain int arithmetic.  This TU must not include
-// any other Au header.  Divergences here are MODEL-DIVERGENCE (evidence), never a VIOLATION.
+// any other Au header.  A divergence here is MODEL-DIVERGENCE (evidence), never a VIOLATION by itself;
+// the explorer scales each one to 64 bits and re-runs it through the real helper (c12_modcube single).
 // usage: c12_replica PART NPARTS      (compile with -DC12_W=8 or 10)
 #pragma once
 #include <cstdint>
